@@ -181,11 +181,15 @@ Section Files.
     match fs_lookup fs p with Some _ => true | None => false end.
   Definition fs_write (fs : fsmap) (w : path * content) : fsmap := w :: fs.
   Definition fs_writes (fs : fsmap) (ws : list (path * content)) : fsmap := fold_left fs_write ws fs.
+  (* `if os.path.isfile(f) and not overwrite: continue`: a write is carried out unless its file exists and overwrite is off *)
+  Definition fs_keep (overwrite : bool) (fs : fsmap) (w : path * content) : bool :=
+    negb (fs_isfile fs (fst w) && negb overwrite).
 End Files.
 Arguments fs_lookup {content}.
 Arguments fs_isfile {content}.
 Arguments fs_write {content}.
 Arguments fs_writes {content}.
+Arguments fs_keep {content}.
 
 (* "{!s}".format(out_dir_base) *)
 Definition str_of_base (b : option string) : string := match b with Some s => s | None => "None"%string end.
@@ -265,7 +269,7 @@ Section Entry.
   Arguments o_logged {A}.
 
   (* the save block after the loop *)
-  Definition save_dict (fs : fsmap content) (files : list path) (level : Z) (all_iters : bool) (d : fdict)
+  Definition save_dict (fs : fsmap content) (files : list path) (level : Z) (all_iters overwrite : bool) (d : fdict)
     : result (fsmap content) :=
     if single_level level all_iters then
       match dict_max_key d, files with
@@ -275,10 +279,14 @@ Section Entry.
       | Some _, [] => Raises EIndex
       end
     else
-      (* for i, fprints in sorted(d.items()): savez(filenames[i]); keys are 0..level, written in level order *)
+      (* for i, fprints in sorted(d.items()):
+             if os.path.isfile(filenames[i]) and not overwrite: continue      (repair e0cef96)
+             savez(filenames[i])
+         keys are 0..level, written in level order *)
       Ok (fold_left (fun acc f_i =>
                        match dict_get d (snd f_i) with
-                       | Some l => fs_write acc (fst f_i, pickle l)
+                       | Some l => if fs_isfile acc (fst f_i) && negb overwrite then acc
+                                   else fs_write acc (fst f_i, pickle l)
                        | None => acc
                        end)
                     (combine files (zrange (level + 1))) fs).
@@ -303,7 +311,7 @@ Section Entry.
           | Raises _ => mkout (Ok []) fs None           (* except Exception: return {} *)
           | Ok (d, j) =>
             if a_save a then
-              match save_dict fs files level (a_all_iters a) d with
+              match save_dict fs files level (a_all_iters a) (a_overwrite a) d with
               | Ok fs' => mkout (Ok d) fs' (Some (j + 1))
               | Raises e => mkout (Raises e) fs (Some (j + 1))
               end
